@@ -327,8 +327,10 @@ def gen_conc_case(rng):
         ops.append(("s", None)); ops.append(("r",))
         return ops
     lists = [lst(), lst()]
-    pa, pb = rng.below(len(lists[0]) - 1), rng.below(len(lists[1]) - 1)
-    return lists, pa, pb, rng.choice(SCHEDULES)
+    def pick(l):
+        steps = [j for j, o in enumerate(l[:-1]) if o[0] == "s"]
+        return rng.choice(steps) if (steps and rng.chance(2, 3)) else rng.below(len(l) - 1)
+    return lists, pick(lists[0]), pick(lists[1]), rng.choice(SCHEDULES)
 
 
 def check_conc_case(srvs, solo, style, ad, lists, pa, pb, schedule, rng):
@@ -654,7 +656,7 @@ def _run(chk, srvs):
     # concurrent handlers for different instances
     conc = {"cases": 0, "overlapped": 0, "by_schedule": {}}
     conc_first = {}
-    for n in range(24 if chk.quick else 240):
+    for n in range(40 if chk.quick else 320):
         lists, pa, pb, schedule = gen_conc_case(rng)
         st = "fresh" if rng.chance(1, 2) else "sharedBase"
         ad = rng.chance(1, 3)
